@@ -61,6 +61,9 @@ class LoopHooks(Hooks):
             r = decide_by_model(interp, test, env, fi, self.ordering)
             if r is not NotImplemented:
                 return r
+        r = decide_by_loop_facts(interp, test, env, fi)
+        if r is not NotImplemented:
+            return r
         if text in self.decisions:
             d = self.decisions[text]
         else:
@@ -118,6 +121,83 @@ class LoopHooks(Hooks):
                 return (nf.Rat.atom(("s", "NEW_STEP[" + "|".join(repr(k) for k in key) + "]")),
                         nf.Rat.atom(("s", "NEW_RATIO[" + "|".join(repr(k) for k in key) + "]")))
         return NotImplemented
+
+
+# What the symbolic loop scenarios assume of the loop head (real arithmetic): the loop runs while curr_t < out_t <= ts[-1],
+# the step sizes are positive.  A test that follows from these facts is not a case split -- e.g. the guard that the trial
+# step advances the clock, `next_t > curr_t` with next_t = min(curr_t + step_size, ts[-1]).
+def _sign_from_facts(d):
+    """+1 / -1 when the facts decide the sign of the scalar `d`, else None.  curr_t@head = out_t - p1, ts[-1] = out_t + p2
+    with p1 > 0, p2 >= 0; step_size@head, self.dt, self.dt_min > 0; every `min(...)` is one of its arguments."""
+    d = Rat.lift(d)
+    mins = [a for a in nf.all_atoms(d) if a[0] == "fn" and a[1] == "min"]
+    if mins:
+        m = mins[0]
+        signs = set()
+        args = []
+
+        def grab(a, ar):
+            if a == m:
+                args.extend(ar)
+            return None
+        nf.rewrite(Rat.atom(m), grab)
+        if not args or len(args) > 4:
+            return None
+        for choice in args:
+            if not isinstance(choice, Rat):
+                return None
+            signs.add(_sign_from_facts(nf.substitute(d, {m: choice})))
+        return signs.pop() if len(signs) == 1 else None
+    p1, p2, out_t = nf.sym("@p1", True), nf.sym("@p2", True), nf.sym("out_t", True)
+    e = nf.substitute(d, {("s", "curr_t@head"): out_t - p1, ("s", "ts[-1]"): out_t + p2})
+    e = nf.reduce_sqrt(e)
+    if e.den.terms != Rat.const(1).num.terms:
+        return None
+    strict = {("s", "@p1"), ("s", "step_size@head"), ("s", "self.dt"), ("s", "self.dt_min")}
+    nonneg = strict | {("s", "@p2")}
+    pos = neg = False
+    some_strict = False
+    for mono, c in e.num.terms.items():
+        if not mono or any(a not in nonneg for a, _ in mono):
+            return None
+        if c > 0:
+            pos = True
+        elif c < 0:
+            neg = True
+        some_strict = some_strict or all(a in strict for a, _ in mono)
+    if pos and not neg and some_strict:
+        return 1
+    if neg and not pos and some_strict:
+        return -1
+    return None
+
+
+def decide_by_loop_facts(interp, test, env, fi):
+    neg = False
+    while isinstance(test, ast.UnaryOp) and isinstance(test.op, ast.Not):
+        test, neg = test.operand, not neg
+    if not (isinstance(test, ast.Compare) and len(test.ops) == 1 and isinstance(test.ops[0], (ast.Gt, ast.Lt, ast.GtE, ast.LtE))):
+        return NotImplemented
+    try:
+        saved = interp.hooks
+        interp.hooks = _NoDecide(saved)
+        try:
+            l, r = interp.eval(test.left, env, fi), interp.eval(test.comparators[0], env, fi)
+        finally:
+            interp.hooks = saved
+    except (AnalysisError, SimRaise):
+        return NotImplemented
+    if not all(isinstance(x, (Rat, Fraction, int)) and not isinstance(x, bool) for x in (l, r)):
+        return NotImplemented
+    try:
+        sgn = _sign_from_facts(Rat.lift(l) - Rat.lift(r))
+    except AnalysisError:
+        return NotImplemented
+    if sgn is None:
+        return NotImplemented
+    op = test.ops[0]
+    val = sgn > 0 if isinstance(op, (ast.Gt, ast.GtE)) else sgn < 0
+    return (not val) if neg else val
 
 
 class _NoDecide(Hooks):
@@ -673,3 +753,105 @@ def _last_steps_model(ctx, rule_id, drift, offset):
                       f"adjoint gradients off by ~1e-2", why)
 
 
+
+
+# ------------------------------------------------------------------------------------------------ progress of the clock
+class AbsorbingTime:
+    """A time so large, in its dtype, that adding a step size returns the same number (t + h == t: float32 times at
+    t >= 2^15 with h = 1e-3).  Differences and comparisons are those of the underlying value."""
+
+    def __init__(self, value, name=None):
+        self.value, self.name = Fraction(value), name or f"t={value}"
+
+    def sim_key(self):
+        return self.value
+
+    def sim_binop(self, op, l, r):
+        if isinstance(op, ast.Add):
+            return l if isinstance(l, AbsorbingTime) else r                  # the step is absorbed
+        if isinstance(op, ast.Sub):
+            a = l.value if isinstance(l, AbsorbingTime) else l
+            b = r.value if isinstance(r, AbsorbingTime) else r
+            if isinstance(l, AbsorbingTime) and isinstance(r, AbsorbingTime):
+                return a - b
+            return l if isinstance(l, AbsorbingTime) else NotImplemented     # t - h == t as well
+        if isinstance(op, ast.Mult):
+            return l if isinstance(l, AbsorbingTime) else r if isinstance(r, AbsorbingTime) else NotImplemented
+        return NotImplemented
+
+    def sim_compare(self, op, l, r):
+        a = l.value if isinstance(l, AbsorbingTime) else (nf.frac(l) if not isinstance(l, Rat) else l.const_value())
+        b = r.value if isinstance(r, AbsorbingTime) else (nf.frac(r) if not isinstance(r, Rat) else r.const_value())
+        if a is None or b is None:
+            return NotImplemented
+        table = {ast.Lt: a < b, ast.LtE: a <= b, ast.Gt: a > b, ast.GtE: a >= b, ast.Eq: a == b, ast.NotEq: a != b}
+        return table.get(type(op), NotImplemented)
+
+    def __repr__(self):
+        return self.name
+
+
+def rule_clock_progress(ctx, rule_id):
+    """Every pass of the stepping loop advances the clock or raises.  The loop runs `while curr_t < out_t`; a pass whose
+    trial end is not later than curr_t leaves the fixed-step arm exactly where it was, for ever (and the adaptive arm
+    takes zero-length trials whose error estimate is 0, so it also never moves).  In floating point that is what
+    happens when the step size is below the resolution of the times: curr_t + step_size == curr_t.  One pass is evaluated
+    with such an absorbing clock; it must end in an explicit error."""
+    rep, model = ctx.rep, ctx.model
+    rep.rule(rule_id, "a pass of the stepping loop whose trial step does not advance the clock (t + h == t in the dtype of "
+                      "ts) ends in an explicit error instead of repeating itself for ever")
+    fi, prologue, for_node, while_node, tail, epilogue = loop_structure(model)
+    rep.analysed(fi)
+    for adaptive in (False, True):
+        t_now, t_end = AbsorbingTime(40000, "curr_t"), AbsorbingTime(40001, "ts[-1]")
+        steps = []
+
+        def getitem(it, obj, idx, node, fi2):
+            if idx == 0:
+                return t_now
+            if idx == -1:
+                return t_end
+            raise AnalysisError(f"unexpected index into ts: {idx!r}", where=astq.loc(fi2, node))
+        ts_obj = Obj("ts", getitem_hook=getitem, attrs={"__len__": Intrinsic("len", lambda it, a, k, n, f2: Fraction(2))})
+        self_obj = make_self(model, adaptive, steps)
+        self_obj.attrs["dt"], self_obj.attrs["dt_min"] = Fraction(1, 1000), Fraction(1, 10 ** 5)
+
+        def step(it, args, kwargs, node, fi2):
+            steps.append(tuple(args))
+            return (nf.sym(f"y{len(steps)}"), nf.sym(f"extra{len(steps)}"))
+        self_obj.attrs["step"] = Intrinsic("self.step", step)
+        env = {"self": self_obj, "ts": ts_obj, "out_t": t_end, "curr_t": t_now, "prev_t": t_now,
+               "step_size": Fraction(1, 1000), "prev_error_ratio": None}
+
+        class H(LoopHooks):
+            def on_call(self, interp, callee, args, kwargs, node, fi2):
+                from ..interp import Closure
+                if isinstance(callee, Closure) and callee.fi is not None and callee.fi.name == "compute_error":
+                    return Fraction(0)                 # a zero-length trial: full step and half steps coincide
+                if isinstance(callee, Closure) and callee.fi is not None and callee.fi.name == "update_step_size":
+                    return (Fraction(1, 1000), Fraction(1))
+                return LoopHooks.on_call(self, interp, callee, args, kwargs, node, fi2)
+        path, hooks = run_body(model, adaptive, list(while_node.body), {}, env_override=env)
+        # run_body builds its own hooks; evaluate again with the scenario's hooks when the adaptive arm needs them
+        if adaptive:
+            it = Interp(model, H({}))
+            e2 = head_env(self_obj, ts_obj, t_end)
+            e2.update(env)
+            errs = []
+            try:
+                it.exec_block(list(while_node.body), e2, fi)
+            except SimRaise as e:
+                errs.append(e)
+            after, errors = e2.get("curr_t"), errs
+        else:
+            after, errors = path.env.get("curr_t"), path.errors
+        advanced = isinstance(after, AbsorbingTime) and after.value > t_now.value or \
+            (not isinstance(after, AbsorbingTime) and after is not t_now)
+        ok = bool(errors) or advanced
+        arm = "adaptive" if adaptive else "fixed"
+        rep.check(ok, rule_id, astq.loc(fi, while_node), f"{fi.key}::{rule_id}::{arm}",
+                  f"{arm} steps, a clock that absorbs the step size (curr_t + step_size == curr_t, e.g. float32 ts = [40000, "
+                  f"40000.5] with dt = 1e-3): the pass takes the trial step [{steps[0][0] if steps else '?'}, "
+                  f"{steps[0][1] if steps else '?'}] and ends with curr_t unchanged and no error, so `while curr_t < out_t` "
+                  f"repeats it for ever (sdeint never returns)", "explicit error")
+    ctx.floor(rule_id, 2)
